@@ -61,6 +61,7 @@ type World struct {
 
 	queries   [][]byte // query data pool
 	bridgeQueries [][]byte
+	touched       uint64 // the dispute an AddFeeToDispute message names
 	recent    []oracletypes.MicroReport
 	disputes  []uint64
 	reporters map[int]bool
@@ -223,6 +224,25 @@ func (w *World) deliver(name string, signer int, params []*big.Int, f func(ctx s
 		}
 		write()
 	}()
+	// a dispute message: was the dispute it opened / paid into fully funded afterwards?  (the fee paid so far covers
+	// the dispute fee of its category; further rounds take no stake and count as funded)
+	if res.result == 0 && (name == "ProposeDispute" || name == "AddFeeToDispute") {
+		id := w.touched
+		if name == "ProposeDispute" {
+			id = 0
+			_ = w.s.Disputekeeper.Disputes.Walk(w.ctx, nil, func(k uint64, _ disputetypes.Dispute) (bool, error) {
+				if k > id {
+					id = k
+				}
+				return false, nil
+			})
+		}
+		funded := int64(0)
+		if d, err := w.s.Disputekeeper.Disputes.Get(w.ctx, id); err == nil && (d.DisputeRound > 1 || d.FeeTotal.GTE(d.SlashAmount)) {
+			funded = 1
+		}
+		res.params = append(append([]*big.Int{}, res.params...), bi(funded))
+	}
 	return res
 }
 
@@ -882,6 +902,7 @@ func (w *World) genDisputeOp(a int) genOp {
 			}
 		}
 		return genOp{name: "AddFeeToDispute", signer: a, roles: roles, params: []*big.Int{bi(int64(b2i(bond)))}, run: func(ctx sdk.Context) error {
+			w.touched = id
 			_, err := w.disputeMS.AddFeeToDispute(ctx, &disputetypes.MsgAddFeeToDispute{Creator: addr, DisputeId: id, Amount: w.coin(amt), PayFromBond: bond})
 			return err
 		}}
@@ -933,11 +954,14 @@ func (w *World) genDisputeOp(a int) genOp {
 	pct := map[disputetypes.DisputeCategory]int64{disputetypes.Warning: 100, disputetypes.Minor: 20, disputetypes.Major: 1}[cat]
 	full := bquo(bmul(new(big.Int).SetUint64(rep.Power), bi(loyaPerTRB)), bi(pct))
 	fee := full
-	switch r.Intn(4) {
+	switch r.Intn(5) {
 	case 0:
 		fee = bquo(full, bi(2))
 	case 1:
 		fee = badd(full, bi(int64(r.Intn(1000))))
+	case 2:
+		// just short of the full fee (the fee net of the 5 % burn, one unit less, ...)
+		fee = pick(r, bquo(bmul(full, bi(95)), bi(100)), bquo(bmul(full, bi(97)), bi(100)), bsub(full, bi(1)), bquo(bmul(full, bi(99)), bi(100)))
 	}
 	if fee.Sign() == 0 {
 		fee = bi(1)
